@@ -225,7 +225,18 @@ class PotAdapter(Adapter):
             perm = np.arange(len(r))[::-1]
             v3 = np.array(p.calculate(np.array(r[perm])), dtype=float)
             v4 = np.array([np.asarray(p.calculate(np.array([x])), dtype=float)[0] for x in r])
-        obs = {'raises': 'none', '_v': v1, '_repeat': bool(np.array_equal(v1, v2, equal_nan=True)),
+            # another grid in between (the Domain of another System in the same process): same end points, other spacing; and a
+            # grid of the same length and end points that is NOT the same grid - then the first grid again
+            r2 = np.linspace(float(r[0]), float(r[-1]), 2 * len(r) - 1)
+            va = np.array(p.calculate(np.array(r2)), dtype=float)
+            r3 = np.array(r, dtype=float)
+            r3[1:-1] = r3[1:-1] + 0.25 * (r3[1] - r3[0])
+            p.calculate(r3)
+            v5 = np.array(p.calculate(r), dtype=float)
+        shared = (r2[::2] == np.asarray(r, dtype=float))          # points the two grids have in common bit for bit (a last-bit
+        #                                                           difference at the contact distance legitimately changes branch)
+        alt_ok = bool(np.array_equal(v1, v5, equal_nan=True)) and same_values(va[::2][shared], v1[shared], rtol=1e-9)
+        obs = {'raises': 'none', '_v': v1, '_repeat': bool(np.array_equal(v1, v2, equal_nan=True)) and alt_ok,
                '_r_untouched': r.tobytes() == r0, '_perm': same_values(v1[perm], v3),
                '_single': same_values(v1, v4), '_kind': w['kind']}
         if l.get('raises') == 'none':
